@@ -19,6 +19,7 @@ def main(tier, seed, replay):
         k.validate_profile("rates", 100)
         k.validate_profile("split", 80)
         k.validate_profile("timeout", 80)
+        k.validate_profile("every", 60)
         k.validate_profile("rel", 80)
         k.replay_behaviours("EXH_Mut_c1", mc_consts(kinds=("spawn", "insert", "mutate", "remove"), ops=2, ticks=2, idle=1, cframes=1), 0, invariants=inv)
     else:
@@ -32,6 +33,7 @@ def main(tier, seed, replay):
         k.validate_profile("rates", 2000)
         k.validate_profile("split", 1500)
         k.validate_profile("timeout", 1500)
+        k.validate_profile("every", 1000)
         k.validate_profile("rel", 1500)
         k.validate_profile("rel_split", 1000)
         k.validate_profile("rel_vis", 1000, known=("F17",))
